@@ -168,7 +168,7 @@ class MultiTanStage(object):
         b = Builder(pio)
         proc = MultiTanProcessor(coll)
         proc.compute_global_pixelization(b)
-        proc.tile(pio, parallel=parallel, **common.pkw())
+        proc.tile(pio, parallel=common.parg(parallel), **common.pkw())
 
 
 def standin_reproject(input_data, output_projection=None, shape_out=None, return_footprint=False, **kw):
@@ -285,4 +285,4 @@ class MultiWcsStage(object):
         b = Builder(pio)
         proc = MultiWcsProcessor(coll)
         proc.compute_global_pixelization(b)
-        proc.tile(pio, standin_reproject, parallel=parallel, **common.pkw())
+        proc.tile(pio, standin_reproject, parallel=common.parg(parallel), **common.pkw())
